@@ -1,0 +1,13 @@
+//go:build verif
+
+package parser
+
+// C03: no script or source text ends the process by exhausting the native stack. Every function of this package that
+// lies on a cycle of the package's call graph (static calls, closures, interface calls resolved by method name inside
+// the
+// package) is listed here; a new one - a helper that calls itself - has to be added with the reason it terminates
+// (seed C03i: a recursive integer power whose exponent never reaches zero for negative values, `2 ** -1` killed the
+// process). Why the listed ones terminate: parseIf recurses for else-if chains and counts depth (KF-64);
+// BaseParserError.Error is matched by name only. The Pratt recursion goes through the prefix / infix function tables
+// and is bounded by the depth counter in parseNode (C03.parser.depth.* obligations).
+//@ scan[C03.recursion.parser] C03 recursive parser: (*BaseParserError).Error (*Parser).parseIf
